@@ -70,6 +70,10 @@ pub struct ExecStats {
     pub decoder_max_depth: u32,
     pub multimap_subtrees_seen: u64,
     pub ownership_audits: u64,
+    /// reach probes: how often an operation outcome class was actually met (a probe stuck at
+    /// zero means the workload does not get there)
+    #[serde(default)]
+    pub probes: BTreeMap<String, u64>,
 }
 
 pub struct HeldIter {
@@ -216,6 +220,10 @@ impl Exec {
         let prop = if self.mode == Mode::Faulty { "C08".to_string() } else { self.prop_under_check.clone() };
         let msg = crate::runner::last_panic();
         self.viol(&prop, "panic", format!("{what}: {msg}"));
+    }
+
+    pub fn probe(&mut self, name: &str) {
+        *self.stats.probes.entry(name.to_string()).or_insert(0) += 1;
     }
 
     pub fn state(&self) -> &Arc<DbState> {
